@@ -28,6 +28,7 @@ class Explorer:
         self.src = source_call_id          # call id whose result is 'T'
         self.tainted_calls = tainted_calls  # optional predicate(call node) -> bool: result is 'T'
         self.noreturn = prog.noreturn_nodes(fn) if prog else set()
+        self.track = None               # optional set of root variable names; others are not tracked
         self.src_value = src_value      # abstract value of the tracked call's result ("T" failed / "Z" zero)
         self.sticky = sticky            # every execution of the tracked call site yields src_value
         self.states = 0
@@ -174,6 +175,8 @@ class Explorer:
         p = T.path(ev["lhs"])
         if p is None:
             return envf
+        if self.track is not None and p.split("->")[0] not in self.track:
+            return envf
         env = dict(envf)
         lhs = T.strip(ev["lhs"])
         if lhs.get("k") not in ("v", "m"):
@@ -226,6 +229,8 @@ class Explorer:
                 tgt = T.strip(a["l"])
             if isinstance(tgt, dict) and tgt.get("k") in ("v", "m"):
                 p = T.path(tgt)
+                if p and self.track is not None and p.split("->")[0] not in self.track:
+                    p = None
                 if p:
                     cur = e2.get(p)
                     if truth and not _nz(cur):
